@@ -7,6 +7,8 @@ import Pcore.Proofs.FilesError
 import Pcore.Proofs.FilesAbsent
 import Pcore.Proofs.FilesFlat
 import Pcore.Proofs.FilesKinds
+import Pcore.Proofs.FilesDeep
+import Pcore.Proofs.FilesAncestor
 /-!
 # C15 — File-based loading maps names to definition files faithfully
 
@@ -63,7 +65,14 @@ Full statement / proved / missing
   `C15_has_iff_load_toplevel` (proved) — `HasEntry` ⇔ the lookup does not answer `notfound`, for such loaders and names;
   `C15_has_load_disagree`, `C15_has_load_disagree_reserved` — `C15_has_load_agree_full` is false in general (`HasEntry`
   consults the index only, `find` filters first).
-* missing: the "if" half for deeper names, type sets and ancestors that exist (type-set parent search); it is false as
+* `C15_find_miss`, `C15_absent_global_deep` (proved) — the complete miss of a file loader for a name of ANY depth (every
+  proper prefix cached or without origin): nothing answered, state untouched, fuel `3 * length`; `notfound` + one
+  placeholder through the global loader.  `C15_module_outcome_deep`, `C15_found_iff_module_deep`,
+  `C15_dependency_outcome_deep`, `C15_found_iff_dependency_deep` (proved) — the "if" half and error location for names of
+  three and more segments through a module's loader / the dependency loader.  `C15_ancestor_loaded`, `C15_ancestor_error`
+  (proved, global loader) — a name whose PARENT has a plain file: the parent is loaded on the way and the child stays
+  absent; a defective parent file is the error of the child's lookup.
+* missing: the "if" half for type sets and for several existing ancestors at once (type-set parent search); it is false as
   stated for layouts that define one name twice (`C15_duplicate_redefine`, known finding C15-duplicate-redefine) and the
   error of a misnamed file carries no line (`C15_misnamed_no_line`, known finding C15-misnamed-no-line).  Termination
   (`diverges` unreachable for enough fuel) is not proved; the correspondence run never observed it.  The OS (Walk order,
@@ -703,6 +712,142 @@ theorem C15_has_load_disagree_reserved :
     hasEntry tsCfg {} (.m "mymod") (keyOf ["Init_typeset"]) = true ∧
     (loadS 40 { tsCfg with via := .m "mymod" } {} ["Init_typeset"]).1 = .notfound := by
   decide
+
+/-! ## names of any depth; names whose ancestors exist -/
+
+/-- the complete miss of one file loader, for a name of ANY depth: no origin for the name, every proper prefix cached (it
+    is skipped) or without origin (`QuietAnc`) — `find` answers nothing and leaves the state untouched, given fuel
+    `3 * length` (the nested recursion `find → findTail → parentSearch → find` unwound by induction on the length) -/
+theorem C15_find_miss (cfg : Cfg) (l : Lid) (s : St) (name : Name) (hne : name ≠ []) (hq : QuietAnc cfg l s name)
+    (hi : idx cfg l (keyOf name) = []) (fuel : Nat) (hf : 3 * name.length ≤ fuel) :
+    find fuel cfg l name s = .ok none s :=
+  find_miss cfg l s name hne hq hi fuel hf
+
+/-- absence through the global loader for a name of any depth: `notfound`, nothing read, exactly one placeholder -/
+theorem C15_absent_global_deep (cfg : Cfg) (hv : cfg.via = .g) (name : Name) (hne : name ≠ []) (s : St) (m : Nat)
+    (hfuel : 3 * name.length ≤ m) (hsys : sysLoad name = none)
+    (hq : QuietAnc cfg .g s name) (hi : idx cfg .g (keyOf name) = []) :
+    loadS (m+2) cfg s name = (.notfound, s.put .g (keyOf name) none) :=
+  global_absent_deep cfg hv name hne s m hfuel hsys hq hi
+
+/-- a name of ANY depth (two, three and more segments) through a module's loader — an ordinary module or one called
+    `environment` — in the children-of-global topology: when the global loader misses completely, the first origin of the
+    key in the module's index decides (found / the error naming that file and line), and that file is the only one read -/
+theorem C15_module_outcome_deep (cfg : Cfg) (mod : String) (hv : cfg.via = .m mod) (hflat : cfg.flat = false)
+    (name : Name) (hne : name ≠ []) (s : St) (m : Nat) (hfuel : 3 * name.length ≤ m + 5)
+    (hsys : sysLoad name = none)
+    (hqg : QuietAnc cfg .g s name) (hig : idx cfg .g (keyOf name) = [])
+    (hm1 : s.get (.m mod) (keyOf name) = none) (hroute : Routed (.m mod) name)
+    (p : Path) (ps : List Path) (hi : idx cfg (.m mod) (keyOf name) = p :: ps)
+    (hnt : ∀ nm ts, bodyAt cfg.tree p ≠ some (.typ .typeset nm ts)) :
+    (loadS (m+8) cfg s name).1 = plainOutcomeAt cfg (.m mod) name ∧
+    (loadS (m+8) cfg s name).2.reads = s.reads ++ [p] :=
+  module_deep cfg mod hv hflat name hne s m hfuel hsys hqg hig hm1 hroute p ps hi hnt
+
+theorem C15_found_iff_module_deep (cfg : Cfg) (mod : String) (hv : cfg.via = .m mod) (hflat : cfg.flat = false)
+    (name : Name) (hne : name ≠ []) (s : St) (m : Nat) (hfuel : 3 * name.length ≤ m + 5)
+    (hsys : sysLoad name = none)
+    (hqg : QuietAnc cfg .g s name) (hig : idx cfg .g (keyOf name) = [])
+    (hm1 : s.get (.m mod) (keyOf name) = none) (hroute : Routed (.m mod) name)
+    (p : Path) (ps : List Path) (hi : idx cfg (.m mod) (keyOf name) = p :: ps)
+    (hnt : ∀ nm ts, bodyAt cfg.tree p ≠ some (.typ .typeset nm ts)) :
+    (∃ d, (loadS (m+8) cfg s name).1 = .found d) ↔
+      ((∃ k nm ts, bodyAt cfg.tree p = some (.typ k nm ts) ∧ keyOf nm = keyOf name) ∨ bodyAt cfg.tree p = some .bare) := by
+  rw [(module_deep cfg mod hv hflat name hne s m hfuel hsys hqg hig hm1 hroute p ps hi hnt).1, plainOutcomeAt_found]
+  constructor
+  · rintro ⟨p', ps', h', hb⟩
+    rw [hi] at h'; cases h'; exact hb
+  · intro hb; exact ⟨p, ps, hi, hb⟩
+
+/-- the same through the dependency loader (a qualified name is routed to the module its first segment names) -/
+theorem C15_dependency_outcome_deep (cfg : Cfg) (mod : String) (hv : cfg.via = .d) (hflat : cfg.flat = false)
+    (hmods : cfg.mods.contains mod = true)
+    (name : Name) (hne : name ≠ []) (hqual : qualified name = true) (s : St) (m : Nat) (hfuel : 3 * name.length ≤ m + 5)
+    (hparts : ∃ ps, partsOf name = some ps ∧ ps.head? = some mod)
+    (hsys : sysLoad name = none) (hd1 : s.get .d (keyOf name) = none)
+    (hqg : QuietAnc cfg .g s name) (hig : idx cfg .g (keyOf name) = [])
+    (hm1 : s.get (.m mod) (keyOf name) = none)
+    (p : Path) (ps : List Path) (hi : idx cfg (.m mod) (keyOf name) = p :: ps)
+    (hnt : ∀ nm ts, bodyAt cfg.tree p ≠ some (.typ .typeset nm ts)) :
+    (loadS (m+10) cfg s name).1 = plainOutcomeAt cfg (.m mod) name ∧
+    (loadS (m+10) cfg s name).2.reads = s.reads ++ [p] :=
+  dependency_deep cfg mod hv hflat hmods name hne hqual s m hfuel hparts hsys hd1 hqg hig hm1 p ps hi hnt
+
+theorem C15_found_iff_dependency_deep (cfg : Cfg) (mod : String) (hv : cfg.via = .d) (hflat : cfg.flat = false)
+    (hmods : cfg.mods.contains mod = true)
+    (name : Name) (hne : name ≠ []) (hqual : qualified name = true) (s : St) (m : Nat) (hfuel : 3 * name.length ≤ m + 5)
+    (hparts : ∃ ps, partsOf name = some ps ∧ ps.head? = some mod)
+    (hsys : sysLoad name = none) (hd1 : s.get .d (keyOf name) = none)
+    (hqg : QuietAnc cfg .g s name) (hig : idx cfg .g (keyOf name) = [])
+    (hm1 : s.get (.m mod) (keyOf name) = none)
+    (p : Path) (ps : List Path) (hi : idx cfg (.m mod) (keyOf name) = p :: ps)
+    (hnt : ∀ nm ts, bodyAt cfg.tree p ≠ some (.typ .typeset nm ts)) :
+    (∃ d, (loadS (m+10) cfg s name).1 = .found d) ↔
+      ((∃ k nm ts, bodyAt cfg.tree p = some (.typ k nm ts) ∧ keyOf nm = keyOf name) ∨ bodyAt cfg.tree p = some .bare) := by
+  rw [(dependency_deep cfg mod hv hflat hmods name hne hqual s m hfuel hparts hsys hd1 hqg hig hm1 p ps hi hnt).1,
+    plainOutcomeAt_found]
+  constructor
+  · rintro ⟨p', ps', h', hb⟩
+    rw [hi] at h'; cases h'; exact hb
+  · intro hb; exact ⟨p, ps, hi, hb⟩
+
+def deepCfg (via : Lid) : Cfg :=
+  { mods := ["other", "mymod"], via := via,
+    tree := [(["env", "types", "ns", "a.pp"], .typ .alias ["Ns", "A"] []),
+             (["env", "types", "ns", "bad.pp"], .malformed 4),
+             (["modules", "mymod", "types", "sub", "deep", "Leaf.pp"], .typ .object ["Mymod", "Sub", "Deep", "Leaf"] []),
+             (["modules", "mymod", "types", "sub", "deep", "bad.pp"], .malformed 3)] }
+
+/-- non-vacuity: a four-segment name in another letter case — the hypotheses hold from the empty caches (the global loader
+    is quiet for it: `quietAnc_of_check`), it is found through the module loader and through the dependency loader; its
+    malformed sibling is reported with file and line -/
+example : QuietAnc (deepCfg .d) .g {} ["MYMOD", "sub", "Deep", "LEAF"] ∧
+    idx (deepCfg .d) .g (keyOf ["MYMOD", "sub", "Deep", "LEAF"]) = [] ∧
+    Routed (.m "mymod") ["MYMOD", "sub", "Deep", "LEAF"] ∧
+    idx (deepCfg .d) (.m "mymod") (keyOf ["MYMOD", "sub", "Deep", "LEAF"]) =
+      [["modules", "mymod", "types", "sub", "deep", "Leaf.pp"]] ∧
+    (loadS 15 (deepCfg (.m "mymod")) {} ["MYMOD", "sub", "Deep", "LEAF"]).1 = .found ⟨.object, ["Mymod", "Sub", "Deep", "Leaf"]⟩ ∧
+    (loadS 17 (deepCfg .d) {} ["MYMOD", "sub", "Deep", "LEAF"]).1 = .found ⟨.object, ["Mymod", "Sub", "Deep", "Leaf"]⟩ ∧
+    (loadS 17 (deepCfg .d) {} ["Mymod", "Sub", "Deep", "Bad"]).1 =
+      .failed (.reported "PARSE_ERROR" (some ["modules", "mymod", "types", "sub", "deep", "bad.pp"]) 3) := by
+  refine ⟨quietAnc_of_check (by decide), by decide, Or.inl ⟨rfl, Or.inr ⟨_, rfl, rfl⟩⟩, by decide, by decide, by decide,
+    by decide⟩
+
+/-- a name whose PARENT has a file (a plain definition, no type set): the parent type-set search loads the parent on the
+    way — its file is the only read, it is defined — and the child, having no file, is `notfound` with a placeholder -/
+theorem C15_ancestor_loaded (cfg : Cfg) (hv : cfg.via = .g) (name : Name) (hqual : qualified name = true) (s : St)
+    (m : Nat) (hfuel : 3 * name.length ≤ m + 8)
+    (hsys : sysLoad name = none) (hfresh : s.get .g (keyOf name) = none) (hi : idx cfg .g (keyOf name) = [])
+    (hqa : QuietAnc cfg .g s name.dropLast)
+    (p : Path) (ps : List Path) (hip : idx cfg .g (keyOf name.dropLast) = p :: ps)
+    (b : Body) (d : Def) (hb : bodyAt cfg.tree p = some b) (hd : definedBy b name.dropLast = some d)
+    (hk : d.kind ≠ .typeset) :
+    loadS (m+11) cfg s name =
+      (.notfound, ((((s.put .g (keyOf name.dropLast) none).addRead p).put .g (keyOf name.dropLast) (some d)).put .g
+        (keyOf name) none)) :=
+  ancestor_global_good cfg hv name hqual s m hfuel hsys hfresh hi hqa p ps hip b d hb hd hk
+
+/-- error location when the PARENT's file is defective: the lookup of the (absent) child reports the error naming the
+    parent's file — and the line of a syntax error —, binds nothing and reads that file only -/
+theorem C15_ancestor_error (cfg : Cfg) (hv : cfg.via = .g) (name : Name) (hqual : qualified name = true) (s : St)
+    (m : Nat)
+    (hsys : sysLoad name = none) (hfresh : s.get .g (keyOf name) = none) (hi : idx cfg .g (keyOf name) = [])
+    (hpfresh : s.get .g (keyOf name.dropLast) = none)
+    (p : Path) (ps : List Path) (hip : idx cfg .g (keyOf name.dropLast) = p :: ps)
+    (b : Body) (hb : bodyAt cfg.tree p = some b) (hd : Defective b name.dropLast) :
+    loadS (m+11) cfg s name = (.failed (defectErr p b), (s.put .g (keyOf name.dropLast) none).addRead p) :=
+  ancestor_global_defective cfg hv name hqual s m hsys hfresh hi hpfresh p ps hip b hb hd
+
+/-- non-vacuity, both directions: `Ns::A::B` (absent; parent `Ns::A` has a file) loads the parent and stays absent, the
+    second lookup is answered from the placeholder; `Ns::Bad::X` reports the parent's syntax error with its line; vice
+    versa `Mymod::Sub` (only deeper files exist) is absent and reads nothing -/
+example : QuietAnc (deepCfg .g) .g {} ["Ns", "A"] ∧ definedBy (.typ .alias ["Ns", "A"] []) ["Ns", "A"] = some ⟨.alias, ["Ns", "A"]⟩ ∧
+    (runLoads 14 (deepCfg .g) {} [["Ns", "A", "B"], ["Ns", "A", "B"], ["Ns", "A"]]).1 =
+      [.notfound, .notfound, .found ⟨.alias, ["Ns", "A"]⟩] ∧
+    (runLoads 14 (deepCfg .g) {} [["Ns", "A", "B"], ["Ns", "A", "B"], ["Ns", "A"]]).2.reads = [["env", "types", "ns", "a.pp"]] ∧
+    (loadS 14 (deepCfg .g) {} ["Ns", "Bad", "X"]).1 = .failed (.reported "PARSE_ERROR" (some ["env", "types", "ns", "bad.pp"]) 4) ∧
+    (loadS 17 (deepCfg .d) {} ["Mymod", "Sub"]).1 = .notfound ∧ (loadS 17 (deepCfg .d) {} ["Mymod", "Sub"]).2.reads = [] := by
+  refine ⟨quietAnc_of_check (by decide), by decide, by decide, by decide, by decide, by decide, by decide⟩
 
 /-! ## negation witnesses for the known findings -/
 
